@@ -1,5 +1,5 @@
-// Counterexample found by mirsym/z3 for property C20, template pair_nested_pair: |x, y, z| { z == (y, p0), q == (x, z), x == p1, y == [x] } with parameters [0, 0]: an answer (term or reported constraint) mentions the program variable(s) ['y'] instead of reified `_` variables
-// Replay: /verif/check C20 --replay /verif/replay/cases/C20-pair_nested_pair_unreified_variable.rs
+// Counterexample found by mirsym/z3 for property C20, template pair_fd_nested: |x, y, z, w| { z == (y, p0), w == (x, z), q == [w], infdrange([x, y], &(0..=1)), diseqfd(x, y) } with parameters [0]: reference answer 1 is missing from the engine's answers (expected answers ['[(0, (1, 0))]', '[(1, (0, 0))]'], engine answers ['[(0, (1, 0))]'])
+// Replay: /verif/check C20 --replay /verif/replay/cases/C20-pair_fd_nested_answers.rs
 #![allow(unused_imports, unused_variables, unused_mut)]
 use proto_vulcan::prelude::*;
 use proto_vulcan::lterm::LTerm;
@@ -65,14 +65,14 @@ fn replay() {
 
 fn body() {
     let p0: T = LTerm::from(0);
-    let p1: T = LTerm::from(0);
     let query = proto_vulcan_query!(|q| {
-        |x, y, z| { z == (y, p0), q == (x, z), x == p1, y == [x] }
+        |x, y, z, w| { z == (y, p0), w == (x, z), q == [w], infdrange([x, y], &(0..=1)), diseqfd(x, y) }
     });
-    for r in query.run().take(LIMIT) {
-        let s = format!("{}", r.q);
-        for tok in s.split(|c: char| !(c.is_alphanumeric() || c == '_')) {
-            assert!(!["y"].contains(&tok), "answer `{}` mentions the program variable {}", s, tok);
-        }
-    }
+    let re = |s: String| { let mut o = String::new(); let mut it = s.chars().peekable();
+        while let Some(c) = it.next() { o.push(c); if c == '_' { if it.peek() == Some(&'.') { it.next(); while it.peek().map_or(false, |d| d.is_ascii_digit()) { it.next(); } } } } o };
+    let mut got: Vec<String> = query.run().take(LIMIT).map(|r| re(format!("{}", *r.q))).collect();
+    let mut expected: Vec<String> = vec!["[(0, (1, 0))]".to_string(), "[(1, (0, 0))]".to_string()];
+    got.sort();
+    expected.sort();
+    assert_eq!(got, expected);
 }
